@@ -458,8 +458,8 @@ def guarded_case(rnd, cid, p=BN128, depth=None):
         kind = rnd.random()
         if kind < 0.5:
             op = rnd.choice(["lt", "le", "ge", "eq", "ne", "mul", "truediv", "floordiv", "mod", "add", "and", "rshift"])
-            if op == "rshift":
-                c = b.int_lit(rnd.randrange(0, 3))
+            if op == "rshift" and rnd.random() < 0.8:
+                c = b.int_lit(rnd.randrange(0, 3))          # else: a secret shift count from the pool
             if op == "truediv" and rnd.random() < 0.5:
                 c = b.int_lit(rnd.choice([1, 2, 3, -2, 0]))
             r = b.emit(f"bin {op} r{a} r{c}", "?"); bodyops.append(op)
